@@ -209,6 +209,29 @@ impl Space {
             Space::Oklch => within(0) && nonneg_only(1),
         }
     }
+    /// The bounds the type documents through its min_*/max_* accessors (None = unbounded on that
+    /// side; the hue is never clamped). Typed from the documentation.
+    pub fn clamp_bounds(self) -> [(Option<f64>, Option<f64>); 3] {
+        let b = |lo: f64, hi: f64| (Some(lo), Some(hi));
+        let none = (None, None);
+        match self {
+            Space::Rgb(_) => [b(0.0, 1.0); 3],
+            Space::Luma(..) => [b(0.0, 1.0), none, none],
+            Space::Hsl(_) | Space::Hsv(_) | Space::Hwb(_) | Space::Okhsl | Space::Okhsv | Space::Okhwb => [none, b(0.0, 1.0), b(0.0, 1.0)],
+            Space::Hsluv(_) => [none, b(0.0, 100.0), b(0.0, 100.0)],
+            Space::Xyz(w) => {
+                let x = w.xyz();
+                [b(0.0, x[0]), b(0.0, x[1]), b(0.0, x[2])]
+            }
+            Space::Yxy(_) => [b(0.0, 1.0), b(0.0, 1.0), b(0.0, 1.0)],
+            Space::Lab(_) => [b(0.0, 100.0), b(-128.0, 127.0), b(-128.0, 127.0)],
+            Space::Lch(_) => [b(0.0, 100.0), (Some(0.0), None), none],
+            Space::Luv(_) => [b(0.0, 100.0), b(-84.0, 176.0), b(-135.0, 108.0)],
+            Space::Lchuv(_) => [b(0.0, 100.0), b(0.0, 180.0), none],
+            Space::Oklab => [b(0.0, 1.0), none, none],
+            Space::Oklch => [b(0.0, 1.0), (Some(0.0), None), none],
+        }
+    }
     /// index of the hue component, if any
     pub fn hue_index(self) -> Option<usize> {
         match self {
